@@ -865,7 +865,7 @@ fn process_items(file: &str, items: Vec<Item>, cfg: &Cfg, rw: &mut Rewriter, out
                 }
                 if let Some(tn) = &trait_name {
                     if DROP_TRAIT_IMPLS.contains(&tn.as_str()) {
-                        out.dropped_items.push(format!("{}: impl {} for {}", file, tn, st));
+                        out.dropped_items.push(format!("{}: impl {} for {} #{}", file, tn, st, hash_tokens(&im.to_token_stream())));
                         continue;
                     }
                     if tn == "From" {
@@ -917,7 +917,7 @@ fn process_items(file: &str, items: Vec<Item>, cfg: &Cfg, rw: &mut Rewriter, out
                                 continue;
                             }
                             if DROP_FNS.iter().any(|(t, n)| *t == st && f.sig.ident == n) {
-                                out.dropped_items.push(format!("{}: fn {}::{} (outside the claim)", file, st, f.sig.ident));
+                                out.dropped_items.push(format!("{}: fn {}::{} (outside the claim) #{}", file, st, f.sig.ident, hash_tokens(&f.to_token_stream())));
                                 continue;
                             }
                             let orig = f.to_token_stream();
